@@ -164,6 +164,26 @@ PROPS = {
         assumptions=["files are those produced by the generators of engine fmt (13 workloads + random H/V/AN/GR/SD histories, ndds in {4,5,16}, cache on/off)",
                      "external elements name their file by an absolute path"],
     ),
+    "C18": dict(
+        lean_props=["H4.Props.C18"],
+        engines=[
+            E("repack", "e_repack.c", model="repack", quick=dict(cases=480, chunk=20, timeout=1500), thorough=dict(cases=6000, seeds=4, chunk=50, timeout=3000)),
+        ],
+        trusted_base=["the traversal / copy glue of hrepack (list_vg, copy_sds data loop, copy_gr, copy_vs, gen_dim, annotation copying) is not modelled: it is checked on the implementation by the API-level content comparator of harness/toolgen.h (independent of hdiff)",
+                      "what SDsetchunk/SDsetcompress/GRsetchunk/GRsetcompress leave behind for SDgetchunkinfo/SDgetcompinfo is modelled by `chunkedLayout` (3 lines) and tied by the `decide` lines"],
+        assumptions=["object names in options are not empty and contain no ',' (an empty name makes parse_comp read an uninitialised obj_list entry); at most 31 'x' in a -c value (chunk_lengths[H4_MAX_VAR_DIMS] of the caller is not bounded by the parser); option-file tokens shorter than 10 characters (read_info: fscanf %s into stype[10])",
+                     "JPEG (lossy, 8-bit images only) and SZIP (not built) requests are covered by the option-code tie only, not by runs of the binary; at most 8 chunks per dimension are requested (a file has 65535 reference numbers)"],
+    ),
+    "C19": dict(
+        lean_props=["H4.Props.C19"],
+        engines=[
+            E("tools", "e_tools.c", model="tools", quick=dict(cases=480, chunk=20, timeout=1500), thorough=dict(cases=8000, seeds=4, chunk=100, timeout=3000)),
+        ],
+        trusted_base=["hdiff's per-object routines (diff_sds, diff_vs, diff_gr, gattr_diff, diff_match_dim) and hdiff_list's traversal are not modelled: the model takes the printed object lists and a per-object difference count as inputs; they are exercised by the mutation oracle",
+                      "printf formatting of hdp / hdiff is parsed, not modelled (integers exactly, floats within the printed precision)"],
+        assumptions=["NaN-free data; floating-point values and the -t / -p limits are multiples of 1/8 (exact in float32/float64), |values| < 2^14 when -p is used (so that (float)per > err_rel is decided like the exact rational comparison); 32-bit values less than 2^31 apart (abs() of the int32 difference is defined)",
+                     "hdfimport: ranks 2 and 3, TEXT with -t FP32/FP64/INT32/INT16 and native FP32 / IN32 binary input, no -r raster options"],
+    ),
     "C05": dict(
         lean_props=["H4.Props.C05", "H4.Props.C05Bits", "H4.Props.C05NBit", "H4.Props.C05Skp"],
         engines=[
